@@ -542,6 +542,28 @@ func genOps(prop string, r *Rng, n int, tier string, emit func(string)) {
 			q := genValue(r, "REMB", true).(*rtcp.ReceiverEstimatedMaximumBitrate)
 			emit(fmt.Sprintf("rembto %s %d", bodyTokens(q), q.MarshalSize()+r.Pick(0, 4)))
 		}
+		for i := 0; i < n/30; i++ { // lists: a member beyond a limit anywhere in the list must fail the whole Marshal
+			ps := genPacketList(r, false, 3)
+			bad := genValue(r, allKinds[r.Intn(len(allKinds))], true)
+			at := r.Intn(len(ps) + 1)
+			ps = append(ps[:at], append([]rtcp.Packet{bad}, ps[at:]...)...)
+			emit("uenc " + packetsTokens(ps))
+			if r.Chance(1, 4) {
+				emit("cenc " + packetsTokens(append([]rtcp.Packet{genValue(r, "RR", false), rtcp.NewCNAMESourceDescription(1, "c")}, ps...)))
+			}
+		}
+		for _, k := range []int{253, 254, 65533, 65534, 65535} { // NACK lists around the 8-bit and the 16-bit length limits
+			v := &rtcp.TransportLayerNack{SenderSSRC: 1, MediaSSRC: 2}
+			for j := 0; j < k; j++ {
+				v.Nacks = append(v.Nacks, rtcp.NackPair{PacketID: uint16(j)})
+			}
+			emit(encOp(v))
+		}
+		for _, t := range []string{"-", "00", "6162"} { // SDES items of type 0: alone, and inside a chunk and a packet
+			emit("enc.ITEM 0 " + t)
+			emit("enc.CHUNK 7 2 0 " + t + " 1 6162")
+			emit("enc.SDES 1 7 2 0 " + t + " 1 6162")
+		}
 		for _, k := range bigKinds {
 			if thorough || r.Chance(1, 2) {
 				emit(encOp(genBig(r, k)))
